@@ -335,6 +335,53 @@ def phase_descendant_as_ancestor(chk, rec, d, bounds):
     bounds["desc_as_anc"] = f"descendant-as-ancestor: {n} stored objects (3-level family with overridden constants, every descendant under every ancestor, both drivers, after reopen)"
 
 
+def phase_none_for_required(chk, rec, d, bounds):
+    """None supplied explicitly for a field the JSON Schema requires. The harness' instance lists never say None; a schema class that accepts
+    it has accepted a valid instance like any other: what it serialises to (= what gets stored) must validate against the class' JSON Schema
+    (= the embedded one, compared elsewhere) and be readable again."""
+    import copy as _copy
+
+    fam = C.install_families()
+    n = acc = 0
+    for (name, ver), info in sorted(fam.items()):
+        if not info.instances:
+            continue
+        try:
+            js = json.loads(info.cls.schema_json())
+        except Exception:  # noqa
+            continue
+        val = jsonschema.Draft7Validator(js)
+        for f in js.get("required", []):
+            if f.startswith("@") or f not in info.instances[0]:
+                continue
+            dct = _copy.deepcopy(info.instances[0])
+            dct[f] = None
+            n += 1
+            case = {"part": "none-for-required", "schema": name, "version": list(ver), "field": f}
+            rec.case(("none-for-required", name, ver, f), nontrivial=True)
+            try:
+                obj = info.cls.parse_obj(dct)
+            except Exception:  # noqa  refused: nothing is stored
+                rec.check(True, "", "")
+                continue
+            acc += 1
+            raw = bytes(obj)
+            errs = [f"{'/'.join(map(str, e.absolute_path))}: {e.message[:120]}" for e in val.iter_errors(json.loads(raw))][:3]
+            rec.check(not errs, f"c20:object-invalid-against-embedded-schema:{name}", f"{name} accepts {f}=None, serialises it as {raw[:160]!r}, which does not validate against its JSON Schema: {errs}", case, F_JS + ["schema/decorators.py:make_mandatory"])
+            try:
+                info.cls.parse_raw(raw)
+                back = None
+            except Exception as e:  # noqa
+                back = e
+            rec.check(back is None, f"c20:stored-object-unreadable:{name}", f"{name} accepts {f}=None but cannot read back what it serialised ({raw[:120]!r}): {type(back).__name__}", case, F_JS + ["schema/decorators.py:make_mandatory"])
+    bounds["none_for_required"] = f"None for a required field: {n} (schema, required field) pairs over every schema with instances, {acc} accepted by the class"
+
+
+def extra_phases(chk, rec, d, bounds):
+    phase_descendant_as_ancestor(chk, rec, d, bounds)
+    phase_none_for_required(chk, rec, d, bounds)
+
+
 RULE = (
     "same histories as C06 (scripted sweep attaching EVERY generated instance of EVERY installed and harness-registered schema on dataset, group and root, "
     "copy/move/delete/reopen/patch boundary; exhaustive bounded searches over the three pruned alphabets toggle/tree/general of the C06 driver; seeded random walks over all families; h5py.File and IH5Record); "
@@ -352,7 +399,7 @@ def run(tier: str, seed: int) -> dict:
             "schemas whose instances cannot be created/serialised on the current tree (see notes: core.table, core.packerinfo) contribute no stored objects",
         ],
         trusted=["jsonschema library (Draft7Validator)"],
-        extra_phase=phase_descendant_as_ancestor,
+        extra_phase=extra_phases,
     )  # fmt: skip
 
 
@@ -371,4 +418,14 @@ def replay(case: dict):
         if hit:
             return True, f"{hit[0]['signature']}: {hit[0]['what']}"[:600]
         return False, "descendant-as-ancestor phase: every stored object validates against its embedded schema"
+    if case.get("part") == "none-for-required":
+        from rac.base import Recorder, tmpdir
+
+        rec = Recorder("C20", "c20", max_violations=50)
+        with tmpdir() as d:
+            phase_none_for_required(None, rec, d, {})
+        hit = [v for v in rec.violations if v["replay"]["case"].get("schema") == case.get("schema") and v["replay"]["case"].get("field") == case.get("field")]
+        if hit:
+            return True, f"{hit[0]['signature']}: {hit[0]['what']}"[:600]
+        return False, "the class refuses None for that field, or what it serialises validates"
     return _replay_history(case)
